@@ -157,7 +157,7 @@ fn kx_marc_shared_reserve() {
     if n > g.cap - g.len {
         // a fresh inline-Vec buffer; the old block lost exactly one reference and is untouched
         assert!(b.kind() == KIND_VEC && (b.data as usize) >> VEC_POS_OFFSET == 0);
-        assert!(((b.data as usize) & ORIGINAL_CAPACITY_MASK) >> ORIGINAL_CAPACITY_OFFSET == g.repr);
+        assert!(((b.data as usize) & REPR_MASK) >> ORIGINAL_CAPACITY_OFFSET == g.repr);
         assert!(count(&g) == 1 && block_intact(&g));
         assert!(b.ptr.as_ptr() as usize != g.base as usize + g.off);
         // its size is the request or the handle's original capacity, not more (lemmas/recycle_retention.rs)
